@@ -444,6 +444,50 @@ template<class Rep, int E, int Radix>
                 check_inc("post_dec", -1, true, [](S& x) { return x--; });
             }
         }
+        // comparisons with a bare built-in integer k (either side): x OP k  ==  rep OP (k scaled to x's resolution), judged by value
+        {
+            std::vector<long long> ks = {0, 1, -1, 2, -2, 7, -8, 100, -100};
+            {
+                Big lo = Big(vals::min_v<Rep>()), hi = Big(vals::max_v<Rep>());
+                for (Big const& lim : {lo, hi})
+                    for (int d = -1; d <= 1; ++d) {
+                        Big w = ref::floor_div(lim, one) + Big(d);  // whole numbers around the limits of the type
+                        if (w.template fits_type<long long>()) ks.push_back(w.template to<long long>());
+                    }
+            }
+            S x = cnl::_impl::from_rep<S>(a);
+            Rat const xv = cv::value(x);
+            for (long long kll : ks) {
+                if (!Big(kll).template fits_type<int>()) continue;
+                int k = int(kll);
+                {
+                    // the hand-written form is rep OP (k scaled to x's resolution) in the promoted rep type: k scaled must fit
+                    // it (and int, the type the built-in operand is scaled in), and an unsigned promoted type converts a negative k first (out of scope here, by-value order is C03's)
+                    using PRc = decltype(+Rep{});
+                    if (!(Big(k) * one).template fits_type<PRc>() || !(Big(k) * one).template fits_type<int>() || (!vals::is_signed_v<PRc> && k < 0)) {
+                        vf::skip_pre();
+                        continue;
+                    }
+                }
+                std::string const id = vf::to_s(a) + " cmp " + std::to_string(k);
+                if (vf::replaying() && !vf::case_selected(id)) continue;
+                int c = xv < Rat(Big(k)) ? -1 : (xv == Rat(Big(k)) ? 0 : 1);
+                bool r[12] = {};
+                vf::Outcome o = vf::run([&] {
+                    r[0] = x < k; r[1] = x <= k; r[2] = x > k; r[3] = x >= k; r[4] = x == k; r[5] = x != k;
+                    r[6] = k < x; r[7] = k <= x; r[8] = k > x; r[9] = k >= x; r[10] = k == x; r[11] = k != x;
+                });
+                vf::validated(12);
+                bool const want[12] = {c < 0, c <= 0, c > 0, c >= 0, c == 0, c != 0, c > 0, c >= 0, c < 0, c <= 0, c == 0, c != 0};
+                bool ok = o.ok();
+                for (int i = 0; i < 12 && ok; ++i) ok = r[i] == want[i];
+                if (!ok) {
+                    vf::outcome(o.ok() ? "wrong_compare_builtin" : o.str());
+                    vf::violation(std::string("compare_builtin/") + (o.ok() ? "value" : o.str()) + (c == 0 ? "/equal" : "/unequal"), id, id + ": comparisons of the scaled value " + xv.str() + " with the built-in disagree with the values");
+                } else
+                    vf::outcome("ok_compare_builtin");
+            }
+        }
         for (Rep b : As) {
             auto id = [&] { return vf::to_s(a) + "," + vf::to_s(b); };
             if (vf::replaying() && !vf::case_selected(id())) continue;
